@@ -278,7 +278,8 @@ def run_parsers(R, tonic, comp, enabled, tag=''):
         gb, gt = b.call1(name='get_u8')
         fterm = b.origin({'cp': gt['dest']})
         fsub = show(strip_casts(mirlib.simplify(fterm)))
-        errs = [(bb, i, ops) for bb, i, p, a, ops in mirlib.aggregates(b, 'result::Result', 'Err')]
+        # the Err(Status) values (an Err of some helper conversion, e.g. TryFrom<u8>, is an intermediate value, not an outcome)
+        errs = [(bb, i, ops) for bb, i, p, a, ops in mirlib.aggregates(b, 'result::Result', 'Err') if any(g_.endswith('Status') for g_ in (a.get('ga') or [])[1:2])]
         rb = [x for x in mirlib.aggregates(b, 'decode::State', 'ReadBody')]
         R.check(len(rb) == 1, 'C05.R6', 'readbody-site' + tag, site(b), 'State::ReadBody constructions: %d' % len(rb))
         if not rb:
